@@ -43,6 +43,9 @@ def stages(tier, rng, only=None):
         [ac.P_UNI1, ac.P_UNI1, ac.P_UNI5, ac.P_IND1], rng, flags=(1, 0), all_ops=True), _nt))
     out.append(ac.stage("larger", PID, lambda: ac.cases([ac.larger_dataset(rng) for _ in range(n_rand // 4)], ["PickAPerm"],
                                                         SCHEMES, flags=(1, 0)), _nt))
+    near = [ac.P_UNI1, ([0, 4, 3, 0, 4, 3], [3, 3, 0, 3, 3, 0], 4), ac.P_UNI5, ([0, 4, 4, 0, 4, 4], [4, 4, 0, 4, 4, 1], 4)]
+    out.append(ac.stage("microscopic_penalties", PID, lambda: ac.scaled_cases(
+        grids.datasets(3, 2)[::2], ["PickAPerm"], near, 40, flags=(1, 0)), _nt))
     out.append(ac.stage("majority_lookalikes", PID, lambda: ac.cases(
         ac.majority_datasets(), ["PickAPerm"], [ac.P_UNI1, ac.P_UNI5, ac.P_PSE1, ac.P_EXT], flags=(0, 1),
         namings=["weird", "weird", "letters"], all_schemes=True), _nt))
